@@ -194,6 +194,8 @@ type VC struct {
 	gdecl map[string]bool
 	gmode int
 	sentinelOrder []string
+	siteIDs   map[string]int  // call sites named by hits("...") / counted in SiteHits
+	hitsUsed  map[string]bool // sites whose hit count a contract clause mentioned
 }
 
 func newVC(fn string) *VC {
